@@ -378,6 +378,10 @@ impl Default for WorkerHooks {
     }
 }
 
+fn is_fatal_signal(name: &str) -> bool {
+    matches!(name, "SIGSEGV" | "SIGABRT" | "SIGBUS" | "SIGILL" | "SIGFPE")
+}
+
 fn signal_name(status: &std::process::ExitStatus) -> String {
     use std::os::unix::process::ExitStatusExt;
     if let Some(s) = status.signal() {
@@ -552,7 +556,8 @@ pub fn run_parent(fams: &[Family], cfg: &RunCfg, extra_args: &[String]) -> Resul
                 "detail": {"signal": sig, "note": "worker process died inside this case (not replayed: replay budget used by earlier crashes)"}}));
             continue;
         }
-        let mut same = 0;
+        let mut fatal = 0;
+        let mut reports_violation = 0;
         let mut last = String::new();
         for _ in 0..2 {
             let st = Command::new(&exe)
@@ -572,15 +577,25 @@ pub fn run_parent(fams: &[Family], cfg: &RunCfg, extra_args: &[String]) -> Resul
                 .status()
                 .map_err(|e| e.to_string())?;
             last = signal_name(&st);
-            if &last == sig {
-                same += 1;
+            if is_fatal_signal(&last) {
+                fatal += 1;
+            } else if last == "exit1" {
+                reports_violation += 1;
             }
         }
-        if same == 2 {
+        let is_fatal = is_fatal_signal(sig);
+        if fatal == 2 {
             let class = format!("crash/{}", sig);
             *viol_counts.entry(class.clone()).or_insert(0) += 1;
             violations.push(json!({"class": class, "family": fam.name, "idx": idx,
                 "detail": {"signal": sig, "note": "worker process died inside this case; reproduced twice in fresh processes"}}));
+        } else if is_fatal && fatal + reports_violation == 2 {
+            // memory misuse shows differently from run to run: the same case, alone in a fresh
+            // process, either dies too or is reported as a violation by the ordinary oracle
+            let class = format!("crash/{}", sig);
+            *viol_counts.entry(class.clone()).or_insert(0) += 1;
+            violations.push(json!({"class": class, "family": fam.name, "idx": idx,
+                "detail": {"signal": sig, "note": "worker process died inside this case; replayed twice in fresh processes, each replay either died too or reported a violation of the property for this case", "replays_died": fatal, "replays_reporting_violation": reports_violation}}));
         } else {
             unreproducible.push(json!({"family": fam.name, "idx": idx, "first": sig, "replay": last}));
         }
